@@ -56,6 +56,9 @@ def curated():
     # the SAME array formula text entered twice, one block on top of the other
     add('cse_same_text', S({'A1': 1, 'A2': 2, 'C1:C2': {'array': '=A1:A2*2'}, 'C3:C4': {'array': '=A1:A2*2'}, 'E1': '=SUM(C1:C4)'}),
         ranges=['S!C1:C4', 'S!C1:C2', 'S!C3:C4', 'S!C2:C3'], tags=['cse'], inputs=['S!A1', 'S!A2'])
+    # an ordinary formula whose result is a range that starts with an empty cell (it shows the first element, 0)
+    add('first_blank', S({'A2': 2, 'B1': 5, 'E1': '=A1:A2', 'F1': '=E1+B1', 'G1': '=SUM(A1:A2)+E1'}), ranges=['S!A1:A2', 'S!E1:G1'],
+        inputs=['S!A1', 'S!B1'])
     add('two_sheets', {'sheets': {'S': {'A1': "='Sheet 1'!A1+1", 'B1': "=SUM('Sheet 1'!A1:A2)"},
                                   'Sheet 1': {'A1': 5, 'A2': 6}}, 'active': 'S'},
         ranges=['Sheet 1!A1:A2'])
